@@ -79,4 +79,89 @@ theorem reparsed_comments (r : Rule) : (joinRuleComments r).comments.length ≤ 
   · exact .inl (by simp)
   · exact .inr (by omega)
 
+/-! ### printing never panics on these expressions -/
+
+theorem nthNumbers_nonempty_bits : ∀ a b c d e a' b' c' d' e' : Bool,
+    ([a, b, c, d, e].contains true || [a', b', c', d', e'].contains true) = true →
+      (Print.nthNumbers [a, b, c, d, e] [a', b', c', d', e']).isEmpty = false := by
+  decide
+
+/-- a weekday range the parser can build has a position set: `Display` finds a first number to write -/
+theorem okRange_no_panic (w : WeekDayRange) (h : okRange w = true) : Print.weekDayRangePanics w = false := by
+  cases w with
+  | holiday k off => rfl
+  | fixed lo hi off ns ne =>
+    simp only [okRange, Bool.and_eq_true, decide_eq_true_eq] at h
+    obtain ⟨⟨⟨⟨⟨⟨-, -⟩, hs⟩, he⟩, -⟩, ht⟩, -⟩ := h
+    obtain ⟨a, b, c, d, e, rfl⟩ := len5 hs
+    obtain ⟨a', b', c', d', e', rfl⟩ := len5 he
+    simp only [Print.weekDayRangePanics, nthNumbers_nonempty_bits a b c d e a' b' c' d' e' ht, Bool.and_false]
+
+theorem printable_no_panic (e : Expr) (h : PrintableOut e = true) : Print.printPanics e = false := by
+  obtain ⟨-, -, hr⟩ := (printableOut_iff e).mp h
+  simp only [Print.printPanics, List.any_eq_false, Bool.not_eq_true]
+  intro r hre w hw
+  obtain ⟨-, hwd, -⟩ := okSmall_of_rule r (hr r hre).1
+  have hne : r.day.weekday ≠ [] := by intro h0; rw [h0] at hw; cases hw
+  have := hwd hne
+  simp only [okWeekdays, Bool.and_eq_true, List.all_eq_true] at this
+  exact okRange_no_panic w (this.2 w hw)
+
+/-- **C06 on strings**: `to_string` succeeds on every covered expression and the string parses back
+to the expression with its comments joined -/
+theorem toString_parse_roundtrip (e : Expr) (h : PrintableOut e = true) :
+    ∃ s, Print.toString? e = some s ∧ Parser.parse s = .ok (reparsed e) := by
+  refine ⟨String.ofList (Print.expr e), ?_, ?_⟩
+  · simp [Print.toString?, printable_no_panic e h]
+  · simp only [Parser.parse, String.toList_ofList]
+    exact parse_print_roundtrip e h
+
+/-! ### the result of the round trip is a fixed point -/
+
+theorem okRule_join (r : Rule) (h : okRule r = true) : okRule (joinRuleComments r) = true := by
+  unfold joinRuleComments
+  split
+  · next hlen =>
+    simp only [okRule, okRuleSmall, Bool.and_eq_true, List.all_eq_true] at h ⊢
+    obtain ⟨⟨⟨h1, h2⟩, h3⟩, h4⟩ := h
+    refine ⟨⟨⟨h1, h2⟩, ?_⟩, h4⟩
+    intro s hs
+    simp only [List.mem_singleton] at hs
+    subst hs
+    have hne : r.comments ≠ [] := by intro h0; rw [h0] at hlen; simp at hlen
+    simpa [okComment] using okCommentChars_join r.comments hne h3
+  · exact h
+
+theorem joinRuleComments_idem (r : Rule) : joinRuleComments (joinRuleComments r) = joinRuleComments r := by
+  have : ¬ (joinRuleComments r).comments.length ≥ 2 := by
+    unfold joinRuleComments
+    split
+    · simp
+    · assumption
+  conv => lhs; unfold joinRuleComments
+  rw [if_neg this]
+
+/-- what comes back is covered again, and comes back unchanged the second time -/
+theorem printableOut_reparsed (e : Expr) (h : PrintableOut e = true) : PrintableOut (reparsed e) = true := by
+  cases e with
+  | nil => simp [PrintableOut] at h
+  | cons r rs =>
+    simp only [PrintableOut, reparsed, List.map_cons, List.isEmpty_cons, Bool.not_false, Bool.true_and,
+      Bool.and_eq_true, beq_iff_eq, List.all_cons, List.all_eq_true, List.mem_map, forall_exists_index,
+      and_imp] at h ⊢
+    obtain ⟨hop, hr, hrs⟩ := h
+    refine ⟨by rw [(joinRuleComments_fields r).2.2.2]; exact hop, okRule_join r hr, ?_⟩
+    intro x y hy e
+    subst e
+    exact okRule_join y (hrs y hy)
+
+theorem parse_print_reparsed (e : Expr) (h : PrintableOut e = true) :
+    Parser.parseChars (Print.expr (reparsed e)) = .ok (reparsed e) := by
+  rw [parse_print_roundtrip (reparsed e) (printableOut_reparsed e h)]
+  congr 1
+  simp only [reparsed, List.map_map]
+  apply List.map_congr_left
+  intro r _
+  exact joinRuleComments_idem r
+
 end OH.Proofs.Syn
